@@ -100,7 +100,9 @@ def insert_bad(doc: dict, r, position: str, bad_key: str, n: int):
         prev = fresh
         for i in range(r.randint(1, 3)):
             nm = f"{fresh}Dep{i}"
-            comps[nm] = {"type": "object", "properties": {"zq_link": {"$ref": f"#/components/schemas/{prev}"}}} if i % 2 == 0 else {"type": "array", "items": {"$ref": f"#/components/schemas/{prev}"}}
+            link_ = {"$ref": f"#/components/schemas/{prev}"}
+            comps[nm] = [{"type": "object", "properties": {"zq_link": link_}}, {"type": "array", "items": link_}, {"type": "object", "properties": {"zq_pair": {"type": "array", "prefixItems": [{"type": "string"}, link_]}}},
+                         {"type": "object", "properties": {"zq_pair": {"type": "array", "prefixItems": [link_, {"type": "integer"}], "items": {"type": "string"}}}}][(i + n) % 4]
             prev = nm
     elif position == "depended_family":
         # bad W <- parent P (property) <- {another dependant of P, allOf child of P, grandchild, union / dict / list users}, declared in random order
@@ -114,6 +116,8 @@ def insert_bad(doc: dict, r, position: str, bad_key: str, n: int):
             f"{fresh}Grand": {"allOf": [{"$ref": f"#/components/schemas/{fresh}Child"}, {"type": "object", "properties": {"zq_g": {"type": "integer"}}}]},
             f"{fresh}Lst": {"type": "object", "properties": {"zq_l": {"type": "array", "items": {"$ref": f"#/components/schemas/{P}"}}}},
             f"{fresh}Dct": {"type": "object", "additionalProperties": {"$ref": f"#/components/schemas/{fresh}Child"}},
+            f"{fresh}Tup": {"type": "object", "properties": {"zq_t": {"type": "array", "prefixItems": [{"type": "string"}, {"$ref": f"#/components/schemas/{P}"}]}}},
+            f"{fresh}TupItems": {"type": "object", "properties": {"zq_t": {"type": "array", "prefixItems": [{"$ref": f"#/components/schemas/{P}"}, {"type": "integer"}], "items": {"type": "boolean"}}}},
         }
         ks = list(fam)
         r.shuffle(ks)
